@@ -247,3 +247,21 @@ pub fn low_byte_mask(p: &[u8]) -> u8 {
     }
     ((p.len() + 6) & 0xFF) as u8
 }
+
+pub fn rev_fill(buf: &mut [u8; 7], len: usize, mut word: u64) {
+    if len > 7 || len < 1 {
+        return;
+    }
+    for b in buf[1..len].iter_mut().rev() {
+        *b = word as u8;
+        word >>= 8;
+    }
+}
+
+pub fn filter_count(p: &[u8; 3]) -> usize {
+    p.iter().filter(|t| **t != 0).count()
+}
+
+pub fn u64_pack(id: u32, n: u16) -> u64 {
+    (u64::from(id) << 16) | u64::from(n)
+}
